@@ -2004,7 +2004,8 @@ func (a *oa) lruCall(f *oaFunc, ins ssa.Instruction, fn *ssa.Function, args []oa
 		a.site(f, ins, "memo", "", &oaSite{fail: "unmodelled method of the LRU cache: " + name})
 		return
 	}
-	a.site(f, ins, "memo", "(*lru.Cache)."+name, &oaSite{memo: true})
+	// the receiver is recorded: the memo allowance only covers a cache owned by the resolver object
+	a.site(f, ins, "memo", "(*lru.Cache)."+name, &oaSite{memo: true, ptr: []oaNodeID{args[0].n}})
 }
 
 // ---------------------------------------------------------------- builtins
@@ -2745,6 +2746,16 @@ func OwnershipObligations(prog *Prog) []OblResult {
 			if s.memo {
 				g.memo = true
 				g.empty = false
+				// A memo cache that is not part of the resolver object (package-level, client-owned,
+				// unknown) is shared between resolvers: its unsynchronised updates are not allowed.
+				for o := range a.targets(s) {
+					if o.region == oaGlobal || o.region == oaClient || o.region == oaUnknown {
+						g.failed = true
+						g.memo = false
+						g.details = append(g.details, fmt.Sprintf("LRU cache updated by %s is %s memory (%s), not a cache owned by the resolver: shared between resolvers and goroutines", s.what, o.region, o.desc))
+						break
+					}
+				}
 				continue
 			}
 			if s.fail != "" {
